@@ -463,7 +463,7 @@ func (w *World) nodeMethod(ns *NodeStruct, name string) *ssa.Function {
 
 func ruleC04R1(w *World, r *Report) {
 	const rule = "C04/R1"
-	r.rule(rule, "for every allocation site of an ast node in the parser and every consumer method (SQL, Pos, End) of its type: each dereferencing use of a receiver field reachable under the site's field environment has may-be-nil = false for the field (for its elements when a slice), unless dominated by a nil test of that field", 250)
+	r.rule(rule, "for every allocation site of an ast node in the parser and every consumer method (SQL, Pos, End) of its type: each dereferencing use of a receiver field reachable under the site's field environment has may-be-nil = false for the field (for its elements when a slice), unless dominated by a nil test of that field", 125)
 	v := w.Value()
 	cat := w.Catalog()
 	sitesOf := map[string][]*ssa.Alloc{}
@@ -984,7 +984,7 @@ func ruleC04R2(w *World, r *Report) {
 
 func ruleC04R3(w *World, r *Report) {
 	const rule = "C04/R3"
-	r.rule(rule, "in the consumer files of package ast every index and slice expression is within bounds, for any tree: LEXBOUNDS (linear facts about lengths and indices, callees of the package followed in their calling context) proves 0 <= index < length at each of them; two loads of one field path are one value, because the consumers do not write the tree (C18/R7)", 40)
+	r.rule(rule, "in the consumer files of package ast every index and slice expression is within bounds, for any tree: LEXBOUNDS (linear facts about lengths and indices, callees of the package followed in their calling context) proves 0 <= index < length at each of them; two loads of one field path are one value, because the consumers do not write the tree (C18/R7)", 20)
 	defer debug.SetGCPercent(debug.SetGCPercent(1000))
 	e := w.newLexBounds()
 	e.astScope = true
